@@ -248,3 +248,32 @@ open MdIt.Inline MdIt.Pipeline
 #print axioms doc_total_noesctick
 #print axioms doc_total_src_noesc
 #print axioms doc_total_stock_nodouble
+
+-- FIFTH PART (the escape landing: no hypothesis on the text)
+#check @parseInline_total
+#check @memoSafe_of_coherent
+#check @parseInline_total_stock
+#check @doc_total_coherent_all
+#check @doc_total_src_all
+#check @doc_total_stock_notab
+#print axioms ES.endHyp_holds
+#print axioms ES.endEP_holds
+#print axioms ES.stepEP_holds
+#print axioms ES.backOK_BE
+#print axioms ES.landHyp_holds
+#print axioms ES.top_total
+#print axioms ES.nested_eq
+#print axioms ES.entryP_NF
+#print axioms ES.nestHyps_all
+#print axioms ES.epc_init
+#print axioms ES.parseInlineG_eq_all
+#print axioms ES.parseInline_total
+#print axioms parseInline_total
+#print axioms memoSafe_of_coherent
+#print axioms parseInline_total_stock
+#print axioms doc_total_coherent
+#print axioms doc_total_coherent_src
+#print axioms doc_total_stock_all
+#print axioms doc_total_coherent_all
+#print axioms doc_total_src_all
+#print axioms doc_total_stock_notab
